@@ -22,7 +22,7 @@ def log(*a):
 class Unit:
     """one symbolic harness: factory(eng) -> harness(eng) -> record dict (see run_unit)"""
 
-    def __init__(self, name, factory, eager=True, nproc=None, chunk=40, budget_s=None, qtimeout_ms=60000, max_witnesses=200, note=''):
+    def __init__(self, name, factory, eager=True, nproc=None, chunk=40, budget_s=None, qtimeout_ms=60000, max_witnesses=200, note='', expect=()):
         self.name = name
         self.factory = factory
         self.eager = eager
@@ -32,6 +32,7 @@ class Unit:
         self.qtimeout_ms = qtimeout_ms
         self.max_witnesses = max_witnesses
         self.note = note
+        self.expect = tuple(expect)     # reachability witnesses this unit must produce (vacuity guard)
 
 
 class Result:
@@ -133,6 +134,9 @@ def run_units(res, module, units, budget_s=None, nproc=None, chunk=8):
     if r['leftover']:
         res.inconclusive.append(dict(unit='*', reason=f'time budget reached with {len(r["leftover"])} unexplored decision prefixes'))
     byunit = {u.name: dict(unit=u, recs=[], witnesses=[], cexs=[], paths=0) for u in units}
+    for u in units:
+        for name in u.expect:
+            res.reach.setdefault(f'{u.name}:{name}', False)
     for rec in recs:
         if 'inconclusive' in rec and 'outcome' not in rec:
             why = rec['inconclusive']
